@@ -602,7 +602,7 @@ def case_wire(seed, out, spec):
         attrs = OrderedDict()
         for _ in range(r.randrange(1, 4)):
             attrs[r.pick(['shared', 'k1', 'service.name', 'p%d' % i, 'telemetry.sdk.name'])] = 'plug%d-%d' % (i, r.randrange(9))
-        order = r.randrange(0, 3)
+        order = r.pick([0, 1, 2, -1, -2])    # (a negative order puts the provider ahead of the built-in ones)
         plugins.make(name, ['res'], order=order, attrs=dict(attrs))
         names.append('vf.plugins.' + name)
         pl_attrs.append((order, i, attrs))
